@@ -608,7 +608,8 @@ class Facts:
                             self.dup_headers.append(r['hdr'])
                             continue
                         bi = line.find('"body":')
-                        hk = (q, hash(line[bi:]))
+                        kd = line[end + 11:end + 14]
+                        hk = (q, kd, hash(line[bi:]))
                         if hk in seen_bodies:
                             seen_bodies[hk].dups += 1
                             continue
